@@ -116,7 +116,7 @@ def main():
         if hasattr(mod, 'translate'):
             gen_info = mod.translate()       # regenerate Generated/*.lean from /repo
         rc, out, bt = leanaudit.build(['HealSparse.Props.' + pid, 'hsdriver'])
-        forbidden = leanaudit.forbidden_tokens()
+        forbidden = leanaudit.forbidden_tokens(pid)
         if rc == 0:
             lean = leanaudit.audit(pid)
         else:
